@@ -678,7 +678,10 @@ def drive(check_id: str, tier: str, master: int | None, workers: int | None = No
             path = os.path.join(repdir, f"{check_id}-{plan['seed']}-{_slug(cls)}.json")
             with open(path, "w") as fh:
                 json.dump({"property": check_id, "seed": plan["seed"], "master_seed": master, "index": plan["index"],
-                           "violation_class": cls, "first_failure": ff, "minimised_plan": small,
+                           "violation_class": cls, "first_failure": ff,
+                           "trace": {"digest": conf2.get("digest"), "events": conf2.get("n_events"),
+                                     "faults_fired": conf2.get("faults"), "first_events": conf2.get("events_head")},
+                           "minimised_plan": small,
                            "original_plan": plan, "original_size": plan_size(plan), "minimised_size": plan_size(small)},
                           fh, indent=1)
             log(f"violation class={cls} seed={plan['seed']} detail={ff['detail'][:600]}")
